@@ -167,7 +167,8 @@ def option_sets(text, refs_dir):
     chains = c13.chain_ids(entries)
     cfg = os.path.join(refs_dir, "variant.cfg")
     sets = {"default": [], "-d": ["-d"], "-k": ["-k"], "--protonate-all": ["--protonate-all"], "-q": ["-q"],
-            "-g/-w": ["-g", "0", "10", "0.5", "-w", "2", "8", "2"], "-p": ["-p", cfg]}
+            "-g/-w": ["-g", "0", "10", "0.5", "-w", "2", "8", "2"], "-p": ["-p", cfg],
+            "-p2": ["-p", os.path.join(refs_dir, "variant2.cfg")]}
     if ids:
         sets["-i"] = ["-i", c14.render(ids)]
     if chains:
@@ -193,6 +194,21 @@ def prepare(tier, seed, outdir):
         lines.append("%s %s\n" % (w[0], changed[w[0]]) if w and w[0] in changed else line)
     with open(os.path.join(refs_dir, "variant.cfg"), "w") as fh:
         fh.writelines(lines)
+    # a second parameter file: other distance cut-offs, another side-chain maximum, shifted and custom model pKa values
+    changed2 = {"desolv_cutoff": "30.0", "buried_cutoff": "18.0", "coulomb_cutoff2": "12.0",
+                "sidechain_interaction": "0.30", "Nmin": "150"}
+    lines2 = []
+    for line in open(os.path.join(os.environ.get("VERIF_REPO", "/repo"), "propka", "propka.cfg")):
+        w = line.split()
+        if w and w[0] in changed2:
+            lines2.append("%s %s\n" % (w[0], changed2[w[0]]))
+        elif len(w) >= 3 and w[0] == "model_pkas":
+            lines2.append("model_pkas %s %.2f\n" % (w[1], float(w[2]) + 0.35))
+        else:
+            lines2.append(line)
+    lines2.append("custom_model_pkas MPO-O1 2.10\ncustom_model_pkas MLA-C2 3.10\nexclude_sidechain_interactions TYR\n")
+    with open(os.path.join(refs_dir, "variant2.cfg"), "w") as fh:
+        fh.writelines(lines2)
     os.chdir(cwd)
     cat = build_catalogue(tier, seed)
     jobs = []
@@ -369,10 +385,15 @@ def make_machine(ctx, refs, workdir, quick):
             self._judge(i, oname, got, "path")
 
         @rule(ks=st.lists(st.integers(0, len(cat) - 1), min_size=1, max_size=3, unique=True),
-              oname=st.sampled_from(["default", "-q", "-g/-w", "-k", "--protonate-all"]))
+              oname=st.sampled_from(["default", "-q", "-g/-w", "-k", "--protonate-all", "-c", "-i", "-p2"]))
         def run_cli(self, ks, oname):
             """propka.run.main with several files in one invocation; the written .pka texts are compared."""
             import propka.run
+            if oname in ("-c", "-i"):
+                # input-specific option values: the same input twice in one invocation
+                ks = [ks[0], ks[0]]
+            if oname not in cat[ks[0]]["optsets"]:
+                return
             d = tempfile.mkdtemp(prefix="cli_", dir=workdir)
             os.chdir(d)
             try:
@@ -408,6 +429,48 @@ def make_machine(ctx, refs, workdir, quick):
                                               n, i, oname, j, la[j:j + 1], lb[j:j + 1])}])
             finally:
                 os.chdir(workdir)
+
+        @rule(k=st.integers(0, len(pairs) - 1), version=st.sampled_from(["-p", "-p2"]))
+        def run_with_rewritten_parameter_file(self, k, version):
+            """One path, two contents over time: the parameter file is rewritten in place before the run."""
+            import shutil
+            i = pairs[k][0]
+            live = os.path.join(workdir, "live.cfg")
+            shutil.copy(cat[i]["optsets"][version][1], live)
+            got = run_record(cat[i]["text"], ["-p", live], "stream", workdir)
+            self._judge(i, version, got, "rewritten-cfg")
+
+        @rule(k1=st.integers(0, len(pairs) - 1), k2=st.integers(0, len(pairs) - 1))
+        def calculate_two_then_write(self, k1, k2):
+            """Two molecules are calculated before either .pka file is written (API use)."""
+            import io
+            import propka.run
+            mols = []
+            for k in (k1, k2):
+                i, oname = pairs[k]
+                if oname == "-d":
+                    oname = "default"
+                try:
+                    mols.append((i, oname, propka.run.single("two.pdb", cat[i]["optsets"][oname],
+                                                             stream=io.StringIO(cat[i]["text"]), write_pka=False)))
+                except BaseException:
+                    return
+            for i, oname, mol in mols:
+                mol.write_pka()
+                fn = "two.pka"
+                txt = open(fn).read().split("\n", 1)[1]
+                os.remove(fn)
+                want = ref.get((i, oname))
+                self.steps.append(("two-then-write", i, oname))
+                self.seen.append((i, oname))
+                if want is not None and json.loads(want)["error"] is None and json.loads(want)["pka_text"] != txt:
+                    la, lb = txt.splitlines(), (json.loads(want)["pka_text"] or "").splitlines()
+                    j = next((j for j, (x, y) in enumerate(zip(la, lb)) if x != y), min(len(la), len(lb)))
+                    raise Violation({"steps": self.steps, "catalogue": {str(i): cat[i]["text"]},
+                                     "optsets": {str(i): cat[i]["optsets"]}},
+                                    [{"clause": "written-file==fresh-interpreter-reference",
+                                      "detail": "input %d (%s) written after another molecule was calculated: line %d "
+                                                "%r vs %r" % (i, oname, j, la[j:j + 1], lb[j:j + 1])}])
 
         @rule(n=st.integers(1, 20000), keep=st.booleans())
         def churn(self, n, keep):
